@@ -368,14 +368,19 @@ def lastIdx (p : Nat) : List Line → Nat → Option Nat → Option Nat
 def importPrio (self : Nat) (loaded : List Line) (p : Nat) : Option Nat :=
   if p = self then none else lastIdx p loaded 0 none
 
+/-- addresses `ImportPeers(loaded)` adds for a peer -/
+def importedAddrs (self : Nat) (loaded : List Line) (p : Nat) : List Nat :=
+  loaded.filterMap (fun l => match l with
+    | .full a q => if q = p ∧ p ≠ self then some a else none
+    | _ => none)
+
+def importedEntry (self : Nat) (loaded : List Line) (p : Nat) : Option Known :=
+  match importPrio self loaded p with
+  | none => none
+  | some pr => some { id := p, prio := some pr, addrs := importedAddrs self loaded p }
+
 /-- peerstore of a fresh host `self` after `ImportPeers(loaded)` -/
 def importPeers (self : Nat) (loaded : List Line) (univ : List Nat) : List Known :=
-  univ.filterMap (fun p =>
-    let as := loaded.filterMap (fun l => match l with
-      | .full a q => if q = p ∧ p ≠ self then some a else none
-      | _ => none)
-    match importPrio self loaded p with
-    | none => none
-    | some pr => some { id := p, prio := some pr, addrs := as })
+  univ.filterMap (importedEntry self loaded)
 
 end CV.C14
